@@ -13,4 +13,8 @@ for id in $(cat /verif/BUILT); do
 done
 # the 32-bit side run of the arithmetic/encoding checks: warm the GOARCH=386 standard library
 GOARCH=386 go1.26.8 build -tags verif -o /dev/null ./c19 || echo "setup: 386 warm-up build failed (the side run will report it)"
+# the race side run of the value checks: warm the -race build of the library packages they use
+for p in c02 c03 c09 c13 c16 c20; do
+  go1.26.8 build -tags verif -race -o /dev/null ./$p || echo "setup: race warm-up build of $p failed (the side run will report it)"
+done
 exit 0
